@@ -181,10 +181,14 @@ func (c07Prop) Phases(tier string) []PhaseCfg {
 		n, m = 4_000_000, 200_000
 	}
 	return []PhaseCfg{{Name: "seeded", Count: n, P: map[string]int{"maxdepth": 4}},
-		{Name: "scheduled-pairs", Count: m, P: map[string]int{"maxdepth": 3, "pair": 1}}}
+		{Name: "scheduled-pairs", Count: m, P: map[string]int{"maxdepth": 3, "pair": 1}},
+		{Name: "sessions", Count: 4 * m, P: map[string]int{"maxdepth": 6, "session": 1}}}
 }
 
 func (c07Prop) Gen(t *Tape, ph *PhaseCfg) Case {
+	if ph.P["session"] == 1 {
+		return genSession(t, ph.P["maxdepth"], func(t *Tape, tc *TreeCase) *c07Case { return c07Invocation(t, tc, false) })
+	}
 	if ph.P["pair"] == 1 {
 		a := c07Prop{}.genOne(t, ph)
 		b := c07Prop{}.genOne(t, ph)
@@ -195,12 +199,20 @@ func (c07Prop) Gen(t *Tape, ph *PhaseCfg) Case {
 
 func (c07Prop) genOne(t *Tape, ph *PhaseCfg) *c07Case {
 	tc := genTree(t, TreeOpts{Depth: -1, MaxDepth: ph.P["maxdepth"], Policy: 0, CB: c07Callbacks})
+	return c07Invocation(t, tc, true)
+}
+
+// c07Invocation turns the (valid) command line of tc into one invocation: left valid or rejected.
+func c07Invocation(t *Tape, tc *TreeCase, allowSetError bool) *c07Case {
 	c := &c07Case{Tree: tc, Kind: "valid", ExtraBroken: -1}
 	if t.Draw(4) != 0 {
 		c.Level = t.Draw(len(tc.Path))
 		first := 1 + t.Draw(int(numRejectCauses)-1)
 		for k := 0; k < int(numRejectCauses)-1; k++ {
 			cause := rejectCause(1 + (first-1+k)%(int(numRejectCauses)-1))
+			if cause == rcSetError && !allowSetError {
+				continue
+			}
 			if toks, ok := applyReject(t, tc.Tpl[c.Level], tc.Path[c.Level], tc.Tokens[c.Level], cause); ok {
 				tc.Tokens[c.Level] = toks
 				c.Cause = cause
@@ -217,6 +229,7 @@ func (c07Prop) genOne(t *Tape, ph *PhaseCfg) *c07Case {
 type policyRun struct {
 	p    *Proc
 	inst *Instance
+	snap map[string]VarSnap // the variables as read inside the Action of this run
 }
 
 func runUnderPolicies(tc *TreeCase, argv []string, stream StreamPlan) [3]policyRun {
@@ -232,7 +245,10 @@ func runUnderPolicies(tc *TreeCase, argv []string, stream StreamPlan) [3]policyR
 			inst = Build(&app, p)
 			return inst.Cli.Run(argv)
 		})
-		runs[i] = policyRun{p, inst}
+		runs[i] = policyRun{p, inst, nil}
+		if inst != nil {
+			runs[i].snap = inst.ActionSnap
+		}
 	}
 	return runs
 }
@@ -264,6 +280,9 @@ func (c07Prop) Exec(cc Case, st *Stats) *Violation {
 	EnvState{}.Apply()
 	if pc, ok := cc.(*pairCase); ok {
 		return execPair(pc, st, c07Verdict)
+	}
+	if sc, ok := cc.(*sessionCase); ok {
+		return execSession(sc, st, c07Verdict)
 	}
 	c := cc.(*c07Case)
 	return c07Verdict(c, runUnderPolicies(c.Tree, c.Argv, c.Stream), st)
@@ -367,10 +386,16 @@ func (c14Prop) Phases(tier string) []PhaseCfg {
 		n, m = 4_000_000, 200_000
 	}
 	return []PhaseCfg{{Name: "seeded", Count: n, P: map[string]int{"maxdepth": 4}},
-		{Name: "scheduled-pairs", Count: m, P: map[string]int{"maxdepth": 3, "pair": 1}}}
+		{Name: "scheduled-pairs", Count: m, P: map[string]int{"maxdepth": 3, "pair": 1}},
+		{Name: "sessions", Count: 4 * m, P: map[string]int{"maxdepth": 6, "session": 1}}}
 }
 
 func (c14Prop) Gen(t *Tape, ph *PhaseCfg) Case {
+	if ph.P["session"] == 1 {
+		return genSession(t, ph.P["maxdepth"], func(t *Tape, tc *TreeCase) *c07Case {
+			return c14Invocation(t, tc, []string{"help", "help", "help", "help-as-data", "valid"}[t.Draw(5)])
+		})
+	}
 	if ph.P["pair"] == 1 {
 		a := c14Prop{}.genOne(t, ph)
 		b := c14Prop{}.genOne(t, ph)
@@ -383,6 +408,11 @@ func (c14Prop) genOne(t *Tape, ph *PhaseCfg) *c07Case {
 	kind := []string{"help", "help", "help", "help-as-data", "version", "valid"}[t.Draw(6)]
 	opts := TreeOpts{Depth: -1, MaxDepth: ph.P["maxdepth"], Policy: 0, CB: c07Callbacks}
 	tc := genTree(t, opts)
+	return c14Invocation(t, tc, kind)
+}
+
+// c14Invocation turns the (valid) command line of tc into one invocation of the given kind.
+func c14Invocation(t *Tape, tc *TreeCase, kind string) *c07Case {
 	c := &c07Case{Tree: tc, Kind: kind, ExtraBroken: -1}
 	c.HelpTok = []string{"-h", "--help"}[t.Draw(2)]
 	switch kind {
@@ -394,6 +424,9 @@ func (c14Prop) genOne(t *Tape, ph *PhaseCfg) *c07Case {
 			first := 1 + t.Draw(int(numRejectCauses)-1)
 			for k := 0; k < int(numRejectCauses)-1; k++ {
 				cause := rejectCause(1 + (first-1+k)%(int(numRejectCauses)-1))
+				if cause == rcSetError {
+					continue // arming a failing Set changes the declarations, which sessions share
+				}
 				if toks, ok := applyReject(t, tc.Tpl[lvl], tc.Path[lvl], tc.Tokens[lvl], cause); ok {
 					tc.Tokens[lvl] = toks
 					c.ExtraBroken = lvl
@@ -449,6 +482,9 @@ func (c14Prop) Exec(cc Case, st *Stats) *Violation {
 	if pc, ok := cc.(*pairCase); ok {
 		return execPair(pc, st, c14Verdict)
 	}
+	if sc, ok := cc.(*sessionCase); ok {
+		return execSession(sc, st, c14Verdict)
+	}
 	c := cc.(*c07Case)
 	return c14Verdict(c, runUnderPolicies(c.Tree, c.Argv, c.Stream), st)
 }
@@ -496,7 +532,7 @@ func c14Verdict(c *c07Case, runs [3]policyRun, st *Stats) *Violation {
 			}
 			if c.Kind == "help-as-data" {
 				key := c.Tree.Path[c.Level].Tag + "/X"
-				if snap, ok := r.inst.ActionSnap[key]; !ok || !strings.Contains(snap.Val, `"`+c.HelpTok+`"`) {
+				if snap, ok := r.snap[key]; !ok || !strings.Contains(snap.Val, `"`+c.HelpTok+`"`) {
 					return &Violation{Clause: "help-token-as-data", Detail: pn + ": the help token after `--` must be bound verbatim to the positional argument", Expected: c.HelpTok, Observed: map[string]interface{}{"X": snap.Val, "runs": obs}}
 				}
 			}
@@ -579,8 +615,14 @@ func execPair(pc *pairCase, st *Stats, verdict func(*c07Case, [3]policyRun, *Sta
 		if s.Deadlock {
 			return &Violation{Clause: "concurrent-run-finishes", Detail: "two applications run together did not both finish", Observed: s.DescribeGrants(60)}
 		}
-		runsA[k] = policyRun{procs[0], insts[0]}
-		runsB[k] = policyRun{procs[1], insts[1]}
+		runsA[k] = policyRun{procs[0], insts[0], nil}
+		runsB[k] = policyRun{procs[1], insts[1], nil}
+		if insts[0] != nil {
+			runsA[k].snap = insts[0].ActionSnap
+		}
+		if insts[1] != nil {
+			runsB[k].snap = insts[1].ActionSnap
+		}
 	}
 	st.Count("scheduled_pairs")
 	if v := verdict(pc.A, runsA, st); v != nil {
@@ -590,6 +632,71 @@ func execPair(pc *pairCase, st *Stats, verdict func(*c07Case, [3]policyRun, *Sta
 	if v := verdict(pc.B, runsB, st); v != nil {
 		v.Detail = "(run together with another application under the scheduler) " + v.Detail
 		return v
+	}
+	return nil
+}
+
+// ---------------------------------------------------------------------------
+// Sessions: one application object invoked several times with different command lines (a REPL
+// or server loop). Only trees whose sub-commands declare nothing can be initialised twice.
+
+type sessionCase struct {
+	Invocations []*c07Case
+}
+
+func (sc *sessionCase) Describe() interface{} {
+	inv := []interface{}{}
+	for _, c := range sc.Invocations {
+		inv = append(inv, map[string]interface{}{"argv": c.Argv, "kind": c.Kind, "level": c.Level, "stream": c.Stream.String()})
+	}
+	return map[string]interface{}{"session_on_one_application_object": inv, "app": sc.Invocations[0].Tree.App.Describe()}
+}
+
+func genSession(t *Tape, maxDepth int, one func(t *Tape, tc *TreeCase) *c07Case) *sessionCase {
+	base := genTree(t, TreeOpts{Depth: -1, MaxDepth: maxDepth, Policy: 0, CB: c07Callbacks, SubBare: true})
+	sc := &sessionCase{}
+	n := 2 + t.Draw(2)
+	for i := 0; i < n; i++ {
+		tc := base.cloneTokens()
+		// a fresh valid command line for the root level (the sub-levels have no tokens of their own)
+		tc.Tokens[0] = levelTpls[tc.Tpl[0]].valid(t)
+		sc.Invocations = append(sc.Invocations, one(t, tc))
+	}
+	return sc
+}
+
+func execSession(sc *sessionCase, st *Stats, verdict func(*c07Case, [3]policyRun, *Stats) *Violation) *Violation {
+	n := len(sc.Invocations)
+	runs := make([][3]policyRun, n)
+	for k, pol := range policies {
+		app := *sc.Invocations[0].Tree.App
+		app.Policy = pol
+		var inst *Instance
+		for i, c := range sc.Invocations {
+			p := NewProc(i)
+			p.Stream = c.Stream
+			c := c
+			RunProc(p, func() error {
+				if inst == nil {
+					inst = Build(&app, p)
+				}
+				inst.Proc = p
+				inst.ActionSnap = nil
+				return inst.Cli.Run(c.Argv)
+			})
+			runs[i][k] = policyRun{p, inst, nil}
+			if inst != nil {
+				runs[i][k].snap = inst.ActionSnap
+			}
+		}
+	}
+	st.Count("sessions")
+	for i, c := range sc.Invocations {
+		if v := verdict(c, runs[i], st); v != nil {
+			v.Clause = "session-" + v.Clause
+			v.Detail = fmt.Sprintf("(invocation %d of %d on the same application object) %s", i+1, n, v.Detail)
+			return v
+		}
 	}
 	return nil
 }
